@@ -16,7 +16,7 @@ place() { (cd $out/demo && find . -name '*.go' | while read f; do t=$(tgt $f); m
 unplace() { (cd $out/demo && find . -name '*.go' | while read f; do rm -f $wt/$(tgt $f); done); }
 place
 pkgs=$(cd $out/demo && find . -name '*.go' | while read f; do dirname $(tgt $f); done | sort -u | sed 's|^\./||; s|^\.$||' | while read d; do echo "./$d"; done | tr '\n' ' ')
-run_demo() { go test -vet=off -count=1 -run 'Seed|seed' $pkgs 2>&1 | tail -15; return ${PIPESTATUS[0]}; }
+run_demo() { go test $RACEFLAG -vet=off -count=1 -run 'Seed|seed' $pkgs 2>&1 | tail -15; return ${PIPESTATUS[0]}; }
 echo "== demo on unchanged code (must pass)"; run_demo; r0=$?
 if ! git apply --check $out/patch.diff 2>/dev/null; then echo "patch does not apply cleanly, trying 3-way"; fi
 git apply --3way $out/patch.diff 2>&1 | tail -2 || { echo "PATCH FAILED"; }
